@@ -235,6 +235,8 @@ def run(rep):
     validate_against_real(rep)
     check_process_vm_result(rep, cross)
     check_step_idle(rep, cross)
+    from . import c08wg
+    c08wg.check(rep, cross)
     rep.cross = driver.cross_check(cross, 300, 'ALL', rep.tier, rep.seed)
     rep.extra['cross_checked_obligations'] = len(cross)
 
